@@ -117,6 +117,24 @@ def handleC19 : List String → String
     match C19.parseCtor k, C19.parsePlat plat, C19.parseOpts opts with
     | some k, some p, some o => C19.construct k p o
     | _, _, _ => "bad-op"
+  | ["constructv", k, plat, variant, opts] =>
+    match C19.parseCtor k, C19.parsePlat plat, C19.parsePlat variant, C19.parseOpts opts with
+    | some k, some (some p), some (some v), some o => C19.construct k (some (mergeVariant p v)) o
+    | _, _, _, _ => "bad-op"
+  | ["argv", k, host, plat, opts] =>
+    -- argv of the system transport of the constructed driver (`-` when construction fails)
+    match C19.parseCtor k, fromHex host, C19.parsePlat plat, C19.parseOpts opts with
+    | some k, some h, some p, some o =>
+      let po : Option (List OptInst) := match p with
+        | none => some []
+        | some p => platformAsOptions p
+      match po with
+      | none => "-"
+      | some po =>
+        match Scrapli.Options.construct k (po ++ o) defaults with
+        | .ok c => "argv=" ++ showHexList (argvOfConfig h c)
+        | .error _ => "-"
+    | _, _, _, _ => "bad-op"
   | ["names"] =>
     ",".intercalate (Scrapli.Gen.PlatformOptions.entries.map fun e =>
       toHex e.name ++ ":" ++ toHex (ofStr e.documented))
